@@ -101,6 +101,15 @@ def _cols(ev):
 
 def run(tier, seed):
     events, viol, stats = collect(tier, seed)
+    if tier == "quick":
+        # quick tier: one (the narrowest) event per distinct (operator name, rule) pair plus every 7th of the rest
+        best = {}
+        for i, ev in enumerate(events):
+            if ev["key"] not in best or ev["n"] < events[best[ev["key"]]]["n"]:
+                best[ev["key"]] = i
+        keep = set(best.values()) | {i for i in range(len(events)) if i % 7 == 0 and events[i]["n"] <= 4}
+        stats["quick_tier_events_dropped"] = len(events) - len(keep)
+        events = [ev for i, ev in enumerate(events) if i in keep]
     cases, idx = [], []
     for i, ev in enumerate(events):
         if ev["n"] > (4 if tier == "quick" else 5) + (1 if ev["M"] == 4 else 0):
